@@ -18,7 +18,7 @@ META = {
              "non-trivial = >= 2 QEC cycles (or QUTRIT calibration) and a non-default setting"),
     "assumptions": ["channel match m(a,b) from the statement (same qubit and same channel or one is ALL); zero-length operations only count against barriers"],
     "floors": {
-        "quick": {"circuits_swept": 3000, "circuits_reread_under_other_settings": 1000, "adjacent_pairs_compared": 100000, "barrier_neighbours_compared": 20000, "readout_lt_microwave": 300, "calibration_circuits": 200, "operations_observed": 200000},
+        "quick": {"circuits_swept": 3000, "composite_description_inputs": 100, "circuits_reread_under_other_settings": 1000, "adjacent_pairs_compared": 100000, "barrier_neighbours_compared": 20000, "readout_lt_microwave": 300, "calibration_circuits": 200, "operations_observed": 200000},
         "thorough": {"circuits_swept": 30000, "circuits_reread_under_other_settings": 10000, "adjacent_pairs_compared": 1000000, "barrier_neighbours_compared": 200000, "readout_lt_microwave": 3000, "calibration_circuits": 2000, "operations_observed": 2000000},
     },
 }
@@ -35,6 +35,8 @@ def gen_input(rng: random.Random) -> Dict[str, Any]:
         inp: Dict[str, Any] = {"constructor": "calibration", "type": rng.choice(["QUBIT", "QUTRIT"]), "qubits": rng.sample(range(0, 12), n)}
     else:
         inp = libgen.gen_repcode_input(rng, max_distance=4, max_cycles=6)
+        if inp["description"] == "connectivity" and rng.random() < 0.5:
+            inp["composite"] = libgen.gen_composite(rng, inp)
     inp["glob"] = libgen.gen_global_settings(rng, default=rng.random() < 0.15)
     if rng.random() < 0.5:
         inp["glob_again"] = [libgen.gen_global_settings(rng, default=rng.random() < 0.2) for _ in range(rng.randint(1, 2))]
@@ -129,10 +131,20 @@ def check_input(inp: Dict[str, Any], acc: Acc):
     if g and g.get("READOUT", 2.0) < g.get("MICROWAVE", 1.0):
         acc.count("readout_lt_microwave")
     ctor = inp["constructor"]
+    if inp.get("composite"):
+        acc.count("composite_description_inputs")
     if ctor == "calibration":
         acc.count("calibration_circuits")
     with libgen.override(g):
-        circuit = construct(inp)
+        try:
+            circuit = construct(inp)
+        except Exception as exc:
+            if not inp.get("composite") and not isinstance(exc, libgen.CompositeNotConstructible):
+                raise
+            # exclusions can leave a round without any operation, which some constructors reject: no circuit is produced, the
+            # statement is about the circuits the constructors produce
+            acc.count("composite_constructor_raised_" + type(exc).__name__)
+            return
         check_circuit(circuit, acc, case, "as constructed", ctor)
         modified = construct(inp).apply_modifiers()
         check_circuit(modified, acc, case, "unrolled", ctor)
